@@ -28,7 +28,10 @@ MelemType N::getMatrixElement(const FockState &bra, const FockState &ket) const
 
 MelemType N::getMatrixElement(const FockState &ket) const
 {
-    return ket.count();
+    // count only the modes the operator is built from (sum_{i<Nmodes} n_i)
+    size_t n = 0;
+    for (ParticleIndex i=0; i<Nmodes && i<ket.size(); ++i) n += ket.test(i);
+    return n;
 }
 
 //
